@@ -178,6 +178,8 @@ def describe(cfg):
                 parts.append('%s == %r' % (k[1], k[2]))
         elif k[0] == 'value':
             parts.append('%s = %r' % (k[1], v))
+        elif k[0] == 'arg' and v is not None:
+            parts.append('%s=%s' % (k[1], v))
     return ', '.join(parts) or 'default'
 
 
@@ -207,13 +209,49 @@ def run_scheme(ci, rel, cls, cfg):
     res['stage'] = 'configure_solver'
     n0 = len(it.insts)
     f = it.find_method(cref, 'configure_solver')
-    it.call_function(A.FuncRef(f[0], f[2], self_obj=obj, cls=f[1]), [], {}, f[2])
+    # integrator_cls: the documented default, or any integrator class the method itself distinguishes (compared with `is` / isinstance / issubclass)
+    kwargs = {}
+    cands = []
+    params = [a.arg for a in f[2].args.args]
+    if 'integrator_cls' in params:
+        for n_ in ast.walk(f[2]):
+            names = []
+            if isinstance(n_, ast.Compare):
+                names = [x for x in [n_.left] + list(n_.comparators) if isinstance(x, ast.Name)]
+            elif isinstance(n_, ast.Call) and isinstance(n_.func, ast.Name) and n_.func.id in ('isinstance', 'issubclass') and len(n_.args) == 2:
+                names = [x for x in ast.walk(n_.args[1]) if isinstance(x, ast.Name)]
+            for x in names:
+                if x.id.endswith('Integrator') and x.id not in cands:
+                    cands.append(x.id)
+        if cands:
+            pick = cfg.decide(('arg', 'integrator_cls'), [None] + cands)
+            if pick is not None:
+                sc_ = {'__rel__': f[0]}
+                for st_ in ast.walk(f[2]):
+                    if isinstance(st_, (ast.Import, ast.ImportFrom)):
+                        it.stmt(st_, sc_)
+                val = sc_.get(pick) or it.lookup_global(f[0], pick)
+                if isinstance(val, A.ClassRef):
+                    kwargs['integrator_cls'] = val
+    it.call_function(A.FuncRef(f[0], f[2], self_obj=obj, cls=f[1]), [], kwargs, f[2])
+    res['stage_gap'] = None
     for inst in it.insts[n0:]:
         names = [c.name for r, c in it.mro(inst.cls)]
         if 'Integrator' in names:
+            have = set()
             for role, st in inst.kwargs.items():
                 if isinstance(st, A.Inst):
                     res['steppers'].append((role, st))
+                    for nm_ in stage_names(st.cls, it):
+                        have.add(nm_[3:] if nm_.startswith('py_') else nm_)
+            # every stage the integrator's one_timestep calls must be implemented by some stepper (the stage wrapper is generated only for names some stepper has)
+            ot = it.find_method(inst.cls, 'one_timestep')
+            if ot is not None:
+                called = set(c.func.attr for c in ast.walk(ot[2]) if isinstance(c, ast.Call) and isinstance(c.func, ast.Attribute) and isinstance(c.func.value, ast.Name) and
+                             c.func.value.id == 'self' and (c.func.attr.startswith('stage') and c.func.attr[5:].isdigit()))
+                gap = sorted(called - have)
+                if gap and have:
+                    res['stage_gap'] = (inst, gap, sorted(have))
     res['stage'] = 'setup_properties'
     roles = []
     for k, v in obj.attrs.items():
@@ -287,6 +325,10 @@ def main(chk):
                         if k not in missing:
                             missing[k] = [describe(cfg), node, r2, 0, '']
                         missing[k][3] += 1
+                if res.get('stage_gap'):
+                    inst_, gap, have = res['stage_gap']
+                    ctor.setdefault((inst_.cls.node.name, 'one_timestep of %s calls %s but the steppers it is given implement only %s: the generated integrator has no such stage and the first '
+                                     'step fails' % (inst_.cls.node.name, ['self.%s()' % g_ for g_ in gap], have)), (describe(cfg), inst_.node, inst_.rel))
                 for inst, bad in res['ctor']:
                     ctor.setdefault((inst.cls.node.name, bad), (describe(cfg), inst.node, inst.rel))
                 for inst in res['equations']:
